@@ -31,7 +31,7 @@ RULE = ('cases: single-chain observables (names with and without replica part, n
         'int64 / int32 / int16 / intp / uint8 / nested lists / tuples, C / Fortran / transposed / strided memory layout; sample, jackknife and bootstrap arrays also as strided and negative-stride views; '
         'configuration numbers starting at 0 and above 1e7; seeded export with 1..500 samples, with save_rng and the saved numbers fed back; histories (same name and sample number but other length, same length other name '
         'out of a prefix family, same name / length / first / last configuration but other interior and data; seeded, explicit-table and jackknife requests and re-analyses in random order, every result held and re-requested); '
-        'the same chain multiplied by 2^+-27, 2^+-60, 1e+-8, 1e+-15; every exported array is kept and re-checked after later calls. non-trivial: the chain has non-zero variance (or a rejection was required); '
+        'the same chain multiplied by 2^+-27, 2^+-60, 1e+-8, 1e+-15; every exported array is kept and re-checked after later calls; second hardening: observable and table compared with their state before every export (monitors), bootstrap arrays that do not belong to the table (one sample too few / too many) must be rejected, spectator observables with weight exactly zero in derived observables, int16 / uint16 tables for more than 255 configurations, imports with lists of equal length / first / last configuration but other members; counters judged:<mechanism> give the number of evaluations of every judgement. non-trivial: the chain has non-zero variance (or a rejection was required); '
         'distinct = digest of (function, chain name, configuration list, data, table)')
 ASSUMPTIONS = ['default resampling table = numpy.random.default_rng(md5(chain name) & 0xFFFFFFFF).integers(0, N, (samples, N)) - the documented convention (docstring: "based on the md5 hash of the ensemble name"), adopted by the reference',
                'direct arithmetic compared at 1e-11 of max|sample|; import_jackknife (sum of N numbers minus (N-1) J_i) at 1e-12 N max|sample|; import_bootstrap (least squares) at 1e-11 cond max|sample|, tables with cond > 1e5 are not judged',
